@@ -103,16 +103,18 @@ def main(tier):
                       if any(prog.tys(a).startswith("crate::node::Node<") for a in t["callee"].get("args", []) if isinstance(a, int))})
     run.ob("capacity", "Vec::capacity of the slot vector is read only in Arena::capacity: %s" % callers, callers == ["crate::arena::Arena<T>::capacity"],
            key="capacity|capacity observed in %s" % ",".join(c for c in callers if not c.endswith("::capacity")), detail=callers, nontrivial="capread", sample=True)
-    for name, callee in (("with_capacity", "alloc::vec::Vec::<T>::with_capacity"), ("reserve", "alloc::vec::Vec::<T, A>::reserve")):
-        f = prog.fns.get("crate::arena::Arena<T>::" + name)
-        if run.ob("capacity", "Arena::%s exists" % name, f is not None, key="capacity|%s missing" % name):
-            names = [rules.callee_name(t["callee"]) for _, t in prog.calls(f)]
-            run.ob("capacity", "Arena::%s is exactly %s" % (name, callee), names == [callee], key="capacity|Arena::%s is not a single %s call" % (name, callee.rsplit("::", 1)[-1]), detail=names, nontrivial=("cap", name))
-            if names == [callee]:
-                t = [t for _, t in prog.calls(f)][0]
-                org = rules.origin(prog, f, t["args"][-1])
-                run.ob("capacity", "Arena::%s forwards its size argument" % name, any(o[0] == "arg" for o in org) and not any(o[0] == "const" for o in org),
-                       key="capacity|Arena::%s does not forward its argument" % name, detail=sorted(map(str, org)))
+    # with_capacity(n) / reserve(k) are the Vec call on the slot vector with the caller's argument (decided on the E2 records: whatever private helper the call goes
+    # through, exactly one capacity request reaches the vector and it carries the symbolic argument unchanged)
+    for (prof, entry), recs in sorted(data.items()):
+        for r in recs:
+            if r.get("table") == "with_capacity" and r.get("exit") == "return":
+                ev = [e for e in r.get("events", []) if e[0] in ("with_capacity", "capacity-change")]
+                ok = len(ev) == 1 and ev[0][0] == "with_capacity" and ev[0][1].startswith("('n',)")
+                run.ob("capacity", "with_capacity(n)/%s requests room for exactly n slots" % prof, ok, key="capacity|Arena::with_capacity is not a single with_capacity call", detail=ev, nontrivial=("cap", "with_capacity"))
+            if r.get("table") == "reserve" and r.get("exit") == "return":
+                ev = [e for e in r.get("events", []) if e[0] in ("with_capacity", "capacity-change")]
+                ok = len(ev) == 1 and ev[0][0] == "capacity-change" and str(ev[0][1]).endswith("::reserve") and str(ev[0][2] if len(ev[0]) > 2 else "").startswith("('k',)")
+                run.ob("capacity", "reserve(k)/%s reserves room for exactly k more slots" % prof, ok, key="capacity|Arena::reserve is not a single reserve call", detail=ev, nontrivial=("cap", "reserve"))
     controls.selftest(run, ['ambient call (time)', 'atomic call', 'static item', 'pointer->integer cast', 'interior mutability in a field'])
     run.extra["written_argument"] = ("No ambient state + no interior mutability (C18) + single-threaded &mut access => every call is a function of (arguments, Arena fields); by induction two arenas "
                                      "built by the same calls are field-wise equal (derived PartialEq) and issue the same ids. A derived Clone of plain owned data is equal and shares no storage. "
